@@ -358,6 +358,9 @@ def file_entries(n):
     pairs += [[(1, j), (1, i)] for i in idx for j in idx if i < j and (i + j) % 3 == 0]     # lines not in ascending order
     dups = [[(1, 1), (1, 1)], [(1, 0), (1, 0)]]
     mixed = [[(9, 1), (1, 1)], [(1, n + 1), (9, 2)]]
+    # the lines of one sentence need not be adjacent (two lists concatenated)
+    mixed += [[(1, 1), (9, 1), (1, n)], [(1, 1), (9, 2), (1, 2), (9, 5)], [(9, 1), (1, 1), (9, 2), (1, n + 1)],
+              [(1, 1), (9, 1), (1, 1)]]
     return [[]] + singles + pairs + dups + mixed
 
 
@@ -501,6 +504,32 @@ def check_file_history():
                         'detail': 'entries %r: after a shorter sentence with the same id was processed with the same file the result is %s, '
                                   'with the file used for this sentence alone %s' % (entries, results[0], results[1]),
                         'what': '%s: result depends on sentences processed earlier with the same terminal file' % fname})
+    # a refused file in the middle of a history: file A is used, then a file B that is refused (double index after a valid
+    # line; a file that does not exist), then A again - the second use of A must give what the first one gave
+    for fname, with_pos in (('insert_terminals', True), ('substitute_terminals', False)):
+        for refusal in ('double-index', 'missing'):
+            path_a = write_terminal_file([(1, 2)], with_pos)
+            path_b = write_terminal_file([(1, 3), (1, 1), (1, 1)], with_pos)
+            if refusal == 'missing':
+                os.unlink(path_b)
+            results = []
+            try:
+                with contextlib.redirect_stdout(io.StringIO()), contextlib.redirect_stderr(io.StringIO()):
+                    for step in ('A', 'B', 'A'):
+                        try:
+                            r = getattr(transform, fname)(build(long_), terminalfile=path_a if step == 'A' else path_b, quiet=True)
+                            results.append(model.mt_str(extract(r).root, extract(r).toks) if not monitor(r) else 'ill-formed: %s' % monitor(r))
+                        except Exception as e:
+                            results.append('%s: %s' % (type(e).__name__, e))
+            finally:
+                for pth in (path_a, path_b):
+                    if os.path.exists(pth):
+                        os.unlink(pth)
+            if results[0] != results[2]:
+                out.append({'kind': 'file-history', 'where': fname, 'case': {'file_history': fname, 'with_pos': with_pos},
+                            'detail': 'terminal file A gives %s; after a call with a refused file (%s: %s) the same file A gives %s'
+                                      % (results[0], refusal, results[1][:80], results[2]),
+                            'what': '%s: result depends on a refused terminal file used in between' % fname})
     return out
 
 
